@@ -148,10 +148,10 @@ theorem write_lookup (ini : Ini) (doc : List Item) (hlines : ini.lines = doc.map
       · simp only [hocc, if_true] at h2
         simp only [hocc, if_true]
         cases hg : dicGet? N s with
-        | none => simp [lookupD]
+        | none => simp
         | some x =>
           have h3 : dicGet? x k = none := by simpa only [lookup, hg] using h2
-          by_cases ha : allEmpty x = true <;> simp [ha, h3, lookupD]
+          by_cases ha : allEmpty x = true <;> simp [ha, h3]
       · simp only [hocc, Bool.false_eq_true, if_false] at h2
         simp only [hocc, Bool.false_eq_true, if_false, Option.or_none]
         cases hg : dicGet? N s with
